@@ -2,6 +2,7 @@
 def props(P):
     sim = lambda test, q, th, **kw: P("sim", test, q, th, **kw)
     store = lambda test, q, th, **kw: P("storepbt", test, q, th, **kw)
+    front = lambda test, q, th, **kw: P("front", test, q, th, **kw)
     return {
         "C01": sim("TestC01", (1200, 300), (16, 2500, 1500)),
         "C02": sim("TestC02", (400, 300), (16, 1500, 1800)),
@@ -15,6 +16,7 @@ def props(P):
         "C10": sim("TestC10", (1200, 300), (16, 2500, 1500)),
         "C11": sim("TestC11", (300, 300), (16, 1200, 1800), regress="TestRegressC11"),
         "C14": sim("TestC14", (600, 300), (16, 2500, 1800)),
+        "C15": front("TestC15", (1500, 300), (8, 20000, 1200)),
         "C16": store("TestC16", (400, 300), (16, 1200, 2400)),
         "C17": store("TestC17", (500, 300), (16, 2500, 2400)),
     }
